@@ -73,3 +73,12 @@ Theorem C13_longdouble_variant_refuted :
     ~ In (w_path LongDouble c k) (candidates LongDouble c k k).
 Proof. exact ld_writer_refuted. Qed.
 Print Assumptions C13_longdouble_variant_refuted.
+
+(* a 64-bit unsigned evaluation of the same formula (index not converted to a Python int) violates
+   the statement as soon as k*d >= 2^64: n/d = 10^11/1001, k = 169830173826173834 *)
+Theorem C13_u64wrap_variant_refuted :
+  exists c k, cfg_ok c /\ 0 <= k < 2 ^ 63 /\
+    w_file_ts U64Wrap c k <> round_down (k * rd c / rn c) (fc c) /\
+    ~ In (w_path U64Wrap c k) (candidates Exact c k k).
+Proof. exact u64_writer_refuted. Qed.
+Print Assumptions C13_u64wrap_variant_refuted.
